@@ -202,16 +202,18 @@ func (tc *templateChecker) recurse(parent ast.ParentNode) {
 	// usage of the same name before it refers to an outer variable or @param.
 	var letVarsGoingOutOfScope = tc.letVars[initialLetVars:]
 	var letFromGoingOutOfScope = tc.letFrom[initialLetVars:]
-	var usedKeysToKeep, usedLets []string
+	var usedKeysToKeep []string
+	var letUsed = make([]bool, len(letVarsGoingOutOfScope))
 	for i, key := range tc.usedKeys[initialUsedKeys:] {
-		var usesLet = false
+		// the usage refers to the latest {let} of that name declared before it
+		var usedLet = -1
 		for j, letVar := range letVarsGoingOutOfScope {
 			if letVar == key && letFromGoingOutOfScope[j] <= initialUsedKeys+i {
-				usesLet = true
+				usedLet = j
 			}
 		}
-		if usesLet {
-			usedLets = append(usedLets, key)
+		if usedLet >= 0 {
+			letUsed[usedLet] = true
 		} else {
 			usedKeysToKeep = append(usedKeysToKeep, key)
 		}
@@ -219,8 +221,8 @@ func (tc *templateChecker) recurse(parent ast.ParentNode) {
 
 	// check that any let variables leaving scope have been used
 	var unusedLetVarNames []string
-	for _, letVar := range letVarsGoingOutOfScope {
-		if !contains(usedLets, letVar) {
+	for j, letVar := range letVarsGoingOutOfScope {
+		if !letUsed[j] {
 			unusedLetVarNames = append(unusedLetVarNames, letVar)
 		}
 	}
